@@ -227,6 +227,35 @@ class Ctx:
         self.tlc_runs.append({"name": name, "module": module, **r.as_dict(), "coverage": {k: v[0] for k, v in r.coverage.items()}})
         return r
 
+    def apalache(self, module, *, init, inv, length, next_=None, name, timeout=900):
+        """symbolic check with Apalache (spec/apalache/<module>.tla): returns True (no error), False (invariant violated)"""
+        import shutil
+        import subprocess
+        import time
+
+        exe = shutil.which("apalache-mc")
+        if exe is None:
+            raise MachineryError("apalache-mc is not on PATH")
+        out = self.outdir / f"apalache-{name}"
+        shutil.rmtree(out, ignore_errors=True)
+        cmd = [exe, "check", f"--init={init}", f"--inv={inv}", f"--length={length}", f"--out-dir={out}"] + ([f"--next={next_}"] if next_ else []) + [f"{module}.tla"]
+        t0 = time.time()
+        try:
+            p = subprocess.run(cmd, cwd=str(SPEC / "apalache"), capture_output=True, text=True, timeout=timeout)
+        except subprocess.TimeoutExpired:
+            raise MachineryError(f"apalache {module}/{name} timed out after {timeout}s")
+        text = p.stdout + p.stderr
+        shutil.rmtree(out, ignore_errors=True)
+        if "The outcome is: NoError" in text:
+            ok = True
+        elif "The outcome is: Error" in text and "invariant" in text:
+            ok = False
+        else:
+            raise MachineryError(f"apalache {module}/{name} failed: {text[-600:]}")
+        self.tlc_runs.append({"name": name, "module": f"apalache/{module}", "engine": "apalache", "init": init, "inv": inv, "length": length, "next": next_ or "Next",
+                              "ok": ok, "wall_s": round(time.time() - t0, 2)})
+        return ok
+
     def sample(self, obj, limit=6):
         if len(self.samples) < limit:
             self.samples.append(obj)
